@@ -29,7 +29,7 @@ def tasks(tier):
         dict(module="dcheck", fn="h_deriv", shape=dict(m=2, n=1, fmt="csc")),
     ]
     for w in ("CheckAll", "CheckFirst", "CheckSecond", "NoCheck"):
-        t.append(dict(module="dcheck", fn="h_solver", shape=dict(which=w), opts=dict(mulmode="uf")))
+        t.append(dict(module="dcheck", fn="h_solver", shape=dict(which=w), opts=dict(nra=True)))
     if tier != "quick":
         t.append(dict(module="dcheck", fn="h_deriv", shape=dict(m=3, n=2, fmt="csr")))
         t.append(dict(module="dcheck", fn="h_deriv", shape=dict(m=2, n=3, fmt="csc")))
